@@ -269,3 +269,74 @@ fn k_sqpk_target_info_platform() {
     }
     kani::cover!(true, "reachable");
 }
+
+fn nzp_content(seed: usize, len: usize) -> Vec<u8> {
+    let mut x = (seed as u32).wrapping_mul(2654435761).wrapping_add(12345);
+    (0..len).map(|i| { x = x.wrapping_mul(1664525).wrapping_add(1013904223); if seed % 2 == 0 { (x >> 24) as u8 } else { (i % 7) as u8 } }).collect()
+}
+fn nzp_write_tree(root: &std::path::Path, files: &[(String, Vec<u8>)]) {
+    std::fs::create_dir_all(root).unwrap();
+    for (rel, data) in files {
+        let p = root.join(rel);
+        std::fs::create_dir_all(p.parent().unwrap()).unwrap();
+        std::fs::write(&p, data).unwrap();
+    }
+}
+fn nzp_read_tree(root: &std::path::Path) -> std::collections::BTreeMap<String, Vec<u8>> {
+    let mut m = std::collections::BTreeMap::new();
+    let mut stack = vec![root.to_path_buf()];
+    while let Some(d) = stack.pop() {
+        if let Ok(rd) = std::fs::read_dir(&d) {
+            for e in rd.flatten() {
+                let p = e.path();
+                if p.is_dir() { stack.push(p); } else { m.insert(p.strip_prefix(root).unwrap().to_str().unwrap().to_string(), std::fs::read(&p).unwrap()); }
+            }
+        }
+    }
+    m
+}
+
+//@unit props=C04 label=B tier=quick native=1 fn=patch::ZiPatch::{create,apply} bound="by execution on temporary directories: 12 pairs of trees (nesting depth 0..4) mixing unchanged, changed, added and removed files with sizes from {1, 127, 128, 129, 31999, 32000, 32001, 300000}, incl. identical trees, empty A, empty B"
+//@desc applying the patch created from (A, B) to a copy of A yields exactly B's non-empty files with B's contents (files only in B appear, files in both end with B's content, files only in A disappear); creating the patch modifies neither A nor B
+#[test]
+fn native_zipatch_create_apply() {
+    let sizes = [1usize, 127, 128, 129, 31999, 32000, 32001, 300000];
+    let paths = ["a.bin", "ffxivboot.exe", "sqpack/ffxiv/000000.win32.dat0", "sqpack/ffxiv/000000.win32.index", "sqpack/ex1/020101.win32.dat1", "movie/ffxiv/00000.bk2", "d1/d2/d3/d4/deep.dat", "d1/d2/other.dat"];
+    let base = std::env::temp_dir().join(format!("physis-verif-c04-{}", std::process::id()));
+    let _ = std::fs::remove_dir_all(&base);
+    let mut cases = 0u64;
+    for pair in 0..12usize {
+        // state of path k in this pair: 0 absent/absent, 1 same, 2 changed, 3 only in A, 4 only in B
+        let mut a_files: Vec<(String, Vec<u8>)> = vec![];
+        let mut b_files: Vec<(String, Vec<u8>)> = vec![];
+        for (k, rel) in paths.iter().enumerate() {
+            let st = match pair { 0 => 1, 1 => 4, 2 => 3, 3 => 2, _ => (k * 3 + pair) % 5 };
+            let la = sizes[(k + pair) % sizes.len()];
+            let lb = sizes[(k * 5 + pair + 1) % sizes.len()];
+            match st {
+                1 => { let c = nzp_content(k + pair, la); a_files.push((rel.to_string(), c.clone())); b_files.push((rel.to_string(), c)); }
+                2 => { a_files.push((rel.to_string(), nzp_content(k + pair, la))); b_files.push((rel.to_string(), nzp_content(k + pair + 100, lb))); }
+                3 => { a_files.push((rel.to_string(), nzp_content(k + pair, la))); }
+                4 => { b_files.push((rel.to_string(), nzp_content(k + pair + 200, lb))); }
+                _ => {}
+            }
+        }
+        let (da, db, dw) = (base.join(format!("{pair}/A")), base.join(format!("{pair}/B")), base.join(format!("{pair}/W")));
+        nzp_write_tree(&da, &a_files); nzp_write_tree(&db, &b_files); nzp_write_tree(&dw, &a_files);
+        let (ta, tb) = (nzp_read_tree(&da), nzp_read_tree(&db));
+        let patch = ZiPatch::create(da.to_str().unwrap(), db.to_str().unwrap()).expect("create");
+        assert_eq!(nzp_read_tree(&da), ta, "create leaves A untouched (pair {pair})");
+        assert_eq!(nzp_read_tree(&db), tb, "create leaves B untouched (pair {pair})");
+        let pf = base.join(format!("{pair}/p.patch"));
+        std::fs::write(&pf, &patch).unwrap();
+        ZiPatch::apply(dw.to_str().unwrap(), pf.to_str().unwrap()).expect("a created patch applies");
+        let got = nzp_read_tree(&dw);
+        let want: std::collections::BTreeMap<String, Vec<u8>> = tb.iter().filter(|(_, v)| !v.is_empty()).map(|(k, v)| (k.clone(), v.clone())).collect();
+        let gk: Vec<&String> = got.keys().collect(); let wk: Vec<&String> = want.keys().collect();
+        assert_eq!(gk, wk, "files after apply are exactly B's files (pair {pair})");
+        for (k, v) in want.iter() { assert!(got[k] == *v, "content of {k} after apply is B's content (pair {pair}, {} vs {} bytes)", got[k].len(), v.len()); }
+        cases += 1;
+    }
+    let _ = std::fs::remove_dir_all(&base);
+    println!("NATIVE native_zipatch_create_apply cases={cases}");
+}
